@@ -174,13 +174,21 @@ def fmt_outs(layout, spec, snap, null_strs=()):
             if v is None:
                 d[n] = '?'
                 continue
-            x = z3.simplify(v.v if hasattr(v, 'v') else v).as_long()
+            x = z3.simplify(v.v if hasattr(v, 'v') else v)
+            if not z3.is_bv_value(x):
+                d[n] = '?'
+                continue
+            x = x.as_long()
             if layout.ct[n].s and x >= (1 << (layout.ct[n].w - 1)):
                 x -= 1 << layout.ct[n].w
             d[n] = str(x)
         else:
             ln, arr = strs[n]
-            l = z3.simplify(ln).as_long()
+            l = z3.simplify(ln)
+            if not z3.is_bv_value(l):
+                d[n] = '?'
+                continue
+            l = l.as_long()
             hx = ''
             for i in range(min(l, layout.size[n])):
                 b = z3.simplify(z3.Select(arr, z3.BitVecVal(i, 64)))
